@@ -19,8 +19,10 @@ Import ListNotations.
 From Osmo Require Import Base.DecModel C11.Model C11.Arith C11.Basics C11.LInv C11.LStep C11.Supply C11.Proofs C11.SInv C11.Drift C11.History.
 Open Scope Z_scope.
 
-(* [reachable cfg st] (C11/Proofs.v): st = run cfg (init_state t0 vals mults supply offset bonded) ops for some history
-   [ops], some positive start time and ANY validators / multipliers / supply. *)
+(* [reachable cfg st] (C11/Proofs.v): st = erun cfg (init_state t0 vals mults supply offset bonded) es for some history [es]
+   of operations AND validator slashes (Model.v [slash], fractions up to 1/2), some positive start time and ANY validators /
+   multipliers / supply.  So the marker / unlock / withdraw / accumulator theorems below also hold when validators are
+   slashed in between; [run_reachable]: every slash-free history is such a history. *)
 
 (* supply_neutral: the OSMO supply reported to users (bank supply + supply offset) is the same after any history,
    from ANY starting state and for any validator exchange rates *)
@@ -222,11 +224,26 @@ Proof.
   intros H. assert (X : sl_check = true).
   { unfold sl_check. destruct (slash sl_st [] 0 (P18 / 10)) as [st'|] eqn:E; [|reflexivity]. apply Z.eqb_eq.
     apply (H sl_cfg sl_st [] 0 (P18 / 10) st'); [unfold wf_cfg; vm_compute; repeat split; discriminate| |exact E].
-    do 7 eexists. split; [|reflexivity]. reflexivity. }
+    apply run_reachable. reflexivity. }
   (* reported supply moved by -1,100,000; the real OSMO slashed is 100,000 *)
   assert (Y : sl_check = false) by (vm_compute; reflexivity). rewrite Y in X. discriminate X.
 Qed.
 Print Assumptions C11_supply_neutral_under_slash_refuted.
+
+(* non-vacuity of the slashing part of [reachable]: the state after the 10% slash of the example above is reachable, the lock
+   lost 10% and kept its staking marker *)
+Definition sl_es := [EOp (OLock 0 0 1000000 100); EOp (ODelegate 0 1 0); ESlash [] 0 (P18 / 10)].
+Definition sl_st2 := erun sl_cfg (init_state 1000 [(0, mkVal 1000000 (1000000 * P18))] [(0, 20 * P18)] 0 0 0) sl_es.
+Example C11_nonvacuous_slash :
+  reachable sl_cfg sl_st2 /\ s_locks sl_st2 1 = Some (mkLock 0 0 900000 100 0) /\
+  s_synths sl_st2 1 = [mkSynth Staking 0 0 0 100] /\ s_accum sl_st2 Staking 0 0 = 900000.
+Proof.
+  split.
+  - exists 1000, [(0, mkVal 1000000 (1000000 * P18))], [(0, 20 * P18)], 0, 0, 0, sl_es.
+    split; [reflexivity|]. split; [|reflexivity].
+    unfold sl_es. repeat constructor; vm_compute; discriminate.
+  - vm_compute. repeat split; reflexivity.
+Qed.
 
 (* non-vacuity: three owners lock 3 shares each (multiplier 1, risk factor 0.5) and delegate to validator 0; an epoch
    refreshes; two undelegate, one of them unbonds; time passes; cleanup; the third is topped up *)
@@ -250,6 +267,6 @@ Example C11_nonvacuous :
   snd (grun nv_cfg nv_init (fun _ _ => 0) nv_ops) 0 0 = 5 /\ conn_val nv_cfg st 0 0 = 13.
 Proof.
   split; [unfold wf_cfg; vm_compute; repeat split; discriminate|].
-  split; [do 7 eexists; split; [|reflexivity]; reflexivity|].
+  split; [apply run_reachable; reflexivity|].
   vm_compute. repeat split; try reflexivity; try discriminate; repeat constructor; discriminate.
 Qed.
